@@ -1,6 +1,25 @@
-"""C16 — service-loop property; see tools/mgrfam.py and DESIGN.md §5 C16."""
+"""C16 — service-loop property; see tools/mgrfam.py and DESIGN.md §5 C16.
+A second, oracle-only stage adds on-demand conversions through views (StreamContext.Data caches output for any
+converter, attached or not), which the service-loop model does not contain."""
 import mgrfam
+import pk
 
 
 def run(tier, seed, replay=None):
-    return mgrfam.run("C16", tier, seed, replay)
+    if replay:
+        return mgrfam.run("C16", tier, seed, replay)
+    finish = pk.Report.finish
+    holder = {}
+
+    def capture(self):
+        holder["rep"] = self
+        return 0
+    pk.Report.finish = capture          # run the family check, keep the report open for the second stage
+    try:
+        mgrfam.run("C16", tier, seed, None)
+    finally:
+        pk.Report.finish = finish
+    rep = holder["rep"]
+    mgrfam.stage(rep, "C16", tier, seed, gen_args=["-ondemand"], nsc=60 if tier != "thorough" else 600, nops=50,
+                 label="ondemand", fields=[])
+    return rep.finish()
